@@ -5,7 +5,8 @@ import PSO.Model.Locks
 One request per line, blank-separated tokens, one reply line per request:
 
 ```
-conf U mono            reset everything; autoUnlockTime U, mono 1 = repaired code / 0 = pinned code   -> ok
+conf U mono [comp]     reset everything; autoUnlockTime U, mono 1 = D19 repair present / 0 = pinned code,
+                       comp 1 (default) = D73 repair present / 0 = code before it                      -> ok
 acq l c t              _ReplLockManagerImpl.acquire        -> 1|0 <table>
 pro c t                _ReplLockManagerImpl.prolongate     -> - <table>
 rel l c                _ReplLockManagerImpl.release        -> - <table>
@@ -16,7 +17,8 @@ rebuild u              the replica is rebuilt from its own snapshot: `_serialize
                                                            -> <autoUnlockTime afterwards> <table>
 cnew self last         new wrapper state                   -> ok
 ctry l att             first half of tryAcquire            -> <cmds>
-cfin l att acq T|F|N   second half of tryAcquire           -> T|F|N <cmds>
+cfin l att acq T|F|N|O second half of tryAcquire (O = failed with an open outcome: Timeout / LEADER_CHANGED)
+                                                           -> T|F|N <cmds>
 ctick obj leader n1 n2 n3   one pass of _autoAcquireThread -> <lastProlongateTime> <cmds>
 crel l                 ReplLockManager.release             -> <cmds>
 cisacq l now           ReplLockManager.isAcquired on the current table -> 1|0
@@ -32,6 +34,7 @@ structure St where
   tbl : Table := Table.empty
   keys : List Nat := []       -- lock ids ever acquired (the table has finite support inside them)
   cl : Client := { self := 0 }
+  comp : Bool := true         -- D73 repair present (third argument of `conf`, default 1)
 
 def insertKey (ks : List Nat) (k : Nat) : List Nat :=
   match ks with
@@ -60,10 +63,13 @@ def resStr : Option Bool → String
   | some false => "F"
   | none => "N"
 
-def parseRes : String → Option (Option Bool)
-  | "T" => some (some true)
-  | "F" => some (some false)
-  | "N" => some none
+/-- `T` / `F` / `N` (None with an error after which the command cannot be committed) / `O` (None, outcome
+open: Timeout or LEADER_CHANGED); second component = outcomeOpen -/
+def parseRes : String → Option (Option Bool × Bool)
+  | "T" => some (some true, false)
+  | "F" => some (some false, false)
+  | "N" => some (none, false)
+  | "O" => some (none, true)
   | _ => none
 
 def nats (ws : List String) : Option (List Nat) := ws.mapM String.toNat?
@@ -75,6 +81,7 @@ def step (st : St) (line : String) : St × String :=
   | op :: args =>
     match op, nats args with
     | "conf", some [u, m] => ({ cfg := { U := u, mono := m ≠ 0 } }, "ok")
+    | "conf", some [u, m, cp] => ({ cfg := { U := u, mono := m ≠ 0 }, comp := cp ≠ 0 }, "ok")
     | "acq", some [l, c, t] =>
       let r := applyRes st.cfg st.tbl (.acquire l c t)
       let st' := { st with tbl := r.1, keys := insertKey st.keys l }
@@ -105,7 +112,7 @@ def step (st : St) (line : String) : St × String :=
       | [l, att, acq, r] =>
         match nats [l, att, acq], parseRes r with
         | some [l, att, acq], some res =>
-          let out := st.cl.tryAcquireFinish st.cfg l att acq res
+          let out := st.cl.tryAcquireFinish st.cfg l att acq res.1 res.2 st.comp
           (st, s!"{resStr out.1} {cmdsStr out.2}")
         | _, _ => (st, "error bad cfin")
       | _ => (st, "error bad cfin")
